@@ -213,3 +213,7 @@ def run(ck):
     from props import C15, common
 
     common.import_results(ck, C15, "4", "Generic", "5")
+    # the Remove a closed ping source returns is not overridden by a deferred request (shared with C09.2)
+    from props import C09
+
+    common.import_results(ck, C09, "2", "dispatch_events", "5")
